@@ -10,9 +10,11 @@ WILD = ('any', 'set', 'star')
 
 
 class _Scan:
-    __slots__ = ('unguarded', 'k2', 'dot_first_alt', 'neg_at_start')
+    __slots__ = ('unguarded', 'k2', 'dot_first_alt', 'neg_at_start', 'lead_star', 'lead_group')
 
     def __init__(self):
+        self.lead_star = False       # a `*` stands syntactically first (it may match nothing and pass the dot on)
+        self.lead_group = False      # a group stands syntactically first
         self.unguarded = False       # a wildcard without start-of-segment guard can stand on the first character
         self.k2 = False              # a repeatable group at a guarded position with a guard-bearing first token
         self.dot_first_alt = False   # some alternative of a group at segment start begins with a written dot
@@ -37,6 +39,8 @@ def _scan(seq, at_start, reach0, acc, star_passes, nodotdir, in_rep=False):
             at_start = False
             reach0 = False
         elif k == 'star':
+            if at_start and reach0:
+                acc.lead_star = True
             if at_start and in_rep:
                 acc.k2 = True
             if reach0 and not at_start:
@@ -52,6 +56,8 @@ def _scan(seq, at_start, reach0, acc, star_passes, nodotdir, in_rep=False):
             reach0 = False
         else:
             kind, alts = node[1], node[2]
+            if at_start and reach0:
+                acc.lead_group = True
             if kind == '!':
                 if at_start:
                     acc.neg_at_start = True
@@ -120,4 +126,28 @@ def path_classes(pp, path, flags, impl_accepts, verdict, text):
             out.add('K5')
     if psegs and psegs[-1] in ('.\n', '..\n') and not ptrail and not impl_accepts and verdict == R.MUST:
         out.add('K6b')
+    return out
+
+
+def bash_either_classes(pp, path, dot):
+    """Bash arbitrates the EITHER zone of hidden names: when wcmatch accepts a hidden segment that the lenient model
+    allows but the strict one does not (a `*` or a group was passed at zero width before the written dot), the root cause
+    is K4 (leading `*` whose dot guard sits inside its optional group) or K3 (state reset after a group)."""
+    out = set()
+    if dot:
+        return out
+    _ab, psegs, _tr = R.split_path(path)
+    hidden = [s for s in psegs if s[:1] == '.' and s not in ('.', '..')]
+    if not hidden:
+        return out
+    for s in pp.segs:
+        if isinstance(s, str):
+            continue
+        for seg in hidden:
+            if R.Matcher(seg, 'lenient').full(R.relax_neg(s)) and not R.Matcher(seg, 'strict').full(s):
+                acc = scan_segment(s, star_passes=True)
+                if acc.lead_star:
+                    out.add('K4')
+                if acc.lead_group:
+                    out.add('K3')
     return out
